@@ -169,3 +169,35 @@ package closest
 //@     invariant implies(len(neighbours.catchment) == catchmentSize, neighbours.furthestCompleteness == neighbours.catchment[catchmentSize-1].completeness && (neighbours.furthestDistance == neighbours.catchment[catchmentSize-1].distance || (isnan(neighbours.furthestDistance) && isnan(neighbours.catchment[catchmentSize-1].distance))))
 //@   ensures len(sent(cOut)) == 1 && sent(cOut)[0].qname == query.ID && sent(cOut)[0].qidx == query.Idx && len(sent(cOut)[0].catchment) <= catchmentSize
 //@   ensures [sorted] forall(a, 0, len(sent(cOut)[0].catchment), forall(b, a + 1, len(sent(cOut)[0].catchment), !cmpLess(sent(cOut)[0].catchment[b].distance, sent(cOut)[0].catchment[b].completeness, sent(cOut)[0].catchment[a].distance, sent(cOut)[0].catchment[a].completeness)))
+
+//@ # C06/C18: the fan-out stage. `go` statements are skipped here (spawns mode: each worker is verified against its own
+//@ # contract above); the channels this call makes form a family with one ghost log per channel. What is proved for
+//@ # EVERY stream of targets: worker i is started on query i and channel i; every channel receives exactly the targets
+//@ # that arrived on cIn, all of them, in arrival (= file) order; a first target whose width differs from the queries'
+//@ # is reported on cErr; the done signal is sent once, after everything has been handed out.
+//@ func splitInput spawns
+//@   modifies cErr, cSplitDone
+//@   requires len(queries) >= 1
+//@   loop 1:
+//@     invariant 0 <= i && i <= nQ && nQ == len(queries) && len(QChanArray) == nQ && freshslice(QChanArray)
+//@     invariant [chan.made] forall(k, 0, i, madechan(QChanArray[k]))
+//@     invariant [chan.distinct] forall(a, 0, i, forall(b, 0, i, implies(a != b, QChanArray[a] != QChanArray[b])))
+//@   loop 2:
+//@     invariant nQ == len(queries) && len(QChanArray) == nQ
+//@   before call:findClosest#1: assert [worker.wiring] arg(0) == queries[i] && arg(1) == measure && arg(2) == QChanArray[i] && arg(3) == cOut
+//@   loop 3:
+//@     invariant nQ == len(queries) && len(QChanArray) == nQ && len(sent(cSplitDone)) == 0 && targetCounter == range_i
+//@     invariant [fanout.all] forall(k, 0, nQ, len(sent(QChanArray[k])) == range_i)
+//@     invariant [fanout.order] forall(k, 0, nQ, forall(t, 0, range_i, sent(QChanArray[k])[t] == recv(cIn)[t]))
+//@     invariant [c18.width] len(sent(cErr)) <= 1 && implies(range_i >= 1 && len(recv(cIn)[0].Seq) != len(queries[0].Seq), len(sent(cErr)) == 1)
+//@   loop 4:
+//@     invariant 0 <= i && i <= nQ && nQ == len(queries) && len(QChanArray) == nQ && len(sent(cSplitDone)) == 0
+//@     invariant forall(k, 0, i, len(sent(QChanArray[k])) == range_i3 + 1 && sent(QChanArray[k])[range_i3] == EFR)
+//@     invariant forall(k, i, nQ, len(sent(QChanArray[k])) == range_i3)
+//@     invariant forall(k, 0, nQ, forall(t, 0, range_i3, sent(QChanArray[k])[t] == recv(cIn)[t]))
+//@     invariant len(sent(cErr)) <= 1 && implies(len(recv(cIn)[0].Seq) != len(queries[0].Seq), len(sent(cErr)) == 1)
+//@   loop 5:
+//@     invariant len(sent(cSplitDone)) == 0
+//@   before send#3: assert [c06.fanout] forall(k, 0, nQ, len(sent(QChanArray[k])) == len(recv(cIn)) && forall(t, 0, len(recv(cIn)), sent(QChanArray[k])[t] == recv(cIn)[t]))
+//@   ensures [done.once] len(sent(cSplitDone)) == 1
+//@   ensures [c18.width] implies(len(recv(cIn)) >= 1 && len(recv(cIn)[0].Seq) != len(queries[0].Seq), len(sent(cErr)) == 1)
